@@ -751,7 +751,7 @@ class Engine:
                             raise Unsupported(f'payload {variant}.{p[1]} of {v!r} missing in {fr.fn.name}')
                     cell = c
                     variant = None
-                elif t is Ref and re.match(r'(std|core)::ptr::(Unique|NonNull)<|\*(const|mut) ', p[2]):
+                elif (t is Ref or t is SliceRef) and re.match(r'(std|core)::ptr::(Unique|NonNull)<|\*(const|mut) ', p[2]):
                     pass    # Box<T> / Unique<T> / NonNull<T> are the pointer they wrap
                 else:
                     fld = getattr(v, 'mir_field', None)
